@@ -43,6 +43,7 @@ func init() {
 			"Response side: the handler answers through a Responder with a status in {declared success code, 200,201,202,204,300,304,400,401,403,404,409,422,429,500,503}, an echo header, a two-valued header, optionally an explicit Content-Type (parameters, upper case), and a json/text/octet-stream body of 0 bytes..1 MiB, optionally flushing the head and writing the body only once the caller's reader has been entered (a logical event, no timing); or returns an error carrying a 4xx/5xx code (status judged only). " +
 			"Round 3: query and form parameter names that need escaping ($filter, page[size], 'a b', ...); values ending in a space, a reserved byte or a line break; templates and a base path ending in '/', literal segments with reserved bytes; static query parameters written into the operation's path pattern or into the transport's base path, each such call followed by a call (1 in 2 on a new Runtime) to an operation declaring the name whose caller leaves it out (it must receive none); readers that hand the live body to the consumer; answers labelled with a media type the client has no consumer for (the call must fail naming the content type without entering the reader, as C13 states; with a catch-all consumer the answer must arrive intact); values that cannot be sent (unmarshallable body, media type without producer, a directory as upload: the call fails and no handler runs; a stream whose Close fails). " +
 			"Round 4: empty values at every count (a scalar query/form value that is the empty text; multi arrays of one empty item [\"\"], of several empty items; some multi arrays declare a default); descriptions that spell a produces entry with upper-case letters and/or a parameter (Text/Plain, application/JSON; charset=utf-8, a blank before the ';'), the client listing the types as the description spells them (consumes entries spelled that way too: the client used to refuse them with 'none of producers registered', repaired by bbaab0a and pinned). Lists are compared item by item (a list of one empty item is not the empty list). " +
+			"Round 5: the query string carries keys that are no parameter of the operation, mostly spelled like a (non-file) form field of it, which the caller sets or leaves out as before: the api key of the description's security scheme carried in the query (client.APIKeyAuth(name, \"query\", ..) against security.APIKeyAuth on the server), a parameter the client auth writer adds (a token, a signature), a static query parameter of the path pattern or of the transport's base path; the form field must arrive as set in the form, or as nothing. The handler sets a further response header line by line (a date header with its date; Warning/Link/free-text headers of 1..3 lines, 1 value in 2 holding a comma) and the reader reads it, and the echo header, through GetHeaders as well as GetHeader: the lines must arrive as many, in order and whole. " +
 			"Every call runs on a transport of its case; a dial/reset/deadline/closed-connection error of the loopback plumbing is counted (env:*), the call is repeated once on a fresh server and only what shows again is judged; running out of descriptors/ports is never judged. " +
 			"Oracle: equality of every received value with the supplied one (a declared query/header/form parameter the call left out must arrive as the zero value, or as the default its declaration has), of the operation that ran, and of status/headers/body seen by the response reader with what the handler wrote (body read to EOF without error; status and headers only for HEAD operations). non-trivial = a call with >= 1 value containing a byte that needs escaping in its location; distinct by (operation shape, value tuple)",
 		Assumptions: []string{
@@ -57,6 +58,7 @@ func init() {
 			"a parameter the caller leaves out whose declaration has a default may arrive as that default or as the zero value (the statement speaks of supplied values only); nothing else may arrive",
 			"a multi array supplied as empty items only ([\"\"], [\"\", \"\"]) to a parameter that declares a default: the supplied list and the declared default are both accepted (class either:*): the statement is silent on defaults and C03 reads an empty parameter as its default; without a declared default the supplied list is due",
 			"scalar parameters with a default, required arrays and the non-multi collection formats in query/form are not generated (an empty scalar stands for its default, an empty required value is refused, \"\" splits into no items: C03's ground, the statement of C04 does not rank these against 'equal to the ones supplied')",
+			"the accessor for ONE value (GetHeader) of a header the handler set in several lines may hand back the first line or the lines combined with ',' (RFC 7230 3.2.2); the accessor for all values (GetHeaders) hands back the lines as set",
 			"when the handler returns an error value only the status reaching the reader is judged (the error document is written by the API's error responder: C08); the Content-Type seen by the reader is judged only when the handler set it itself (otherwise it is the negotiated one: C07/C08)",
 		},
 		MinNontrivial: 200,
@@ -99,6 +101,10 @@ type Call struct {
 	AnyConsumer  bool               `json:"anyConsumer,omitempty"`  // the Runtime has a catch-all ("*/*") consumer for this call
 	LiveBody     bool               `json:"liveBody,omitempty"`     // the reader hands the live response body to the consumer (as generated readers do)
 	PreSend      string             `json:"preSend,omitempty"`      // a value that cannot be sent: "unproducible-body" | "no-producer" | "directory-file" | "body-close-error"
+	// round 5
+	AuthQuery     map[string]mon.Q `json:"authQuery,omitempty"`     // query parameters the client auth writer adds to the request (a signature, a token): none of them is a parameter of the operation
+	RespLinesName string           `json:"respLinesName,omitempty"` // a response header the handler sets line by line (Header().Add), one line per item of RespLines
+	RespLines     []mon.Q          `json:"respLines,omitempty"`
 }
 
 // Case is a description plus calls.
@@ -236,6 +242,19 @@ var textConsumer = rt.ConsumerFunc(func(r io.Reader, v interface{}) error {
 	return nil
 })
 
+// keyScheme says where the description's api-key scheme "key" carries its key: the name and "header" or "query" (cases recorded
+// before round 5 carry it in the header X-Api-Key).
+func keyScheme(d *gen.Desc) (name, in string) {
+	name, in = "X-Api-Key", "header"
+	if sd, ok := d.SecDefs["key"]; ok && sd.Type == "apiKey" && sd.Name != "" {
+		name = sd.Name
+		if sd.In == "query" {
+			in = "query"
+		}
+	}
+	return name, in
+}
+
 func build(c *Case) (*sut, error) {
 	doc, err := c.Desc.Load()
 	if err != nil {
@@ -250,7 +269,8 @@ func build(c *Case) (*sut, error) {
 	api.RegisterConsumer("application/x-yaml", yamlpc.YAMLConsumer())
 	api.RegisterConsumer(octetMime, rawConsumer)
 	api.RegisterProducer(octetMime, rt.ByteStreamProducer())
-	api.RegisterAuth("key", security.APIKeyAuth("X-Api-Key", "header", func(tok string) (interface{}, error) { return "P:" + tok, nil }))
+	keyName, keyIn := keyScheme(&c.Desc)
+	api.RegisterAuth("key", security.APIKeyAuth(keyName, keyIn, func(tok string) (interface{}, error) { return "P:" + tok, nil }))
 	for i := range c.Desc.Ops {
 		op := c.Desc.Ops[i]
 		api.RegisterOperation(op.Method, op.Template, rt.OperationHandlerFunc(func(params interface{}) (interface{}, error) {
@@ -279,6 +299,9 @@ func build(c *Case) (*sut, error) {
 				rw.Header().Set("X-Echo", string(call.RespHeader))
 				rw.Header().Add("X-Multi", "one")
 				rw.Header().Add("X-Multi", "two")
+				for _, l := range call.RespLines {
+					rw.Header().Add(call.RespLinesName, string(l))
+				}
 				if call.RespCT != "" {
 					rw.Header().Set("Content-Type", string(call.RespCT))
 				}
@@ -390,6 +413,9 @@ type seen struct {
 	msg     string
 	echo    string
 	multi   []string
+	echos   []string // X-Echo through the plural accessor
+	lines   []string // the header set line by line, through the plural accessor
+	line1   string   // ... and through the singular accessor
 	ct      string
 	cts     []string
 	body    []byte
@@ -463,6 +489,16 @@ func respFeature(call *Call, op *gen.Op) string {
 	}
 	if call.LiveBody {
 		fs = append(fs, "live-body")
+	}
+	if call.RespLinesName != "" {
+		if len(call.RespLines) > 1 {
+			fs = append(fs, "header-in-several-lines")
+		} else {
+			fs = append(fs, "header-line")
+		}
+	}
+	if commaInHeader(call) {
+		fs = append(fs, "comma-in-header-value")
 	}
 	return strings.Join(fs, "+")
 }
@@ -603,7 +639,21 @@ func (s *sut) exec(c *Case, call *Call, op *gen.Op) *obs {
 	})
 	var auth rt.ClientAuthInfoWriter
 	if c.Auth {
-		auth = client.APIKeyAuth("X-Api-Key", "header", string(call.Key))
+		keyName, keyIn := keyScheme(&c.Desc)
+		auth = client.APIKeyAuth(keyName, keyIn, string(call.Key))
+	}
+	if len(call.AuthQuery) > 0 {
+		// an auth writer that puts parameters of its own into the query (a token, a signature)
+		inner := auth
+		auth = rt.ClientAuthInfoWriterFunc(func(req rt.ClientRequest, reg strfmt.Registry) error {
+			for k, v := range call.AuthQuery {
+				_ = req.SetQueryParam(k, string(v))
+			}
+			if inner != nil {
+				return inner.AuthenticateRequest(req, reg)
+			}
+			return nil
+		})
 	}
 	if call.Signer {
 		inner := auth
@@ -632,6 +682,11 @@ func (s *sut) exec(c *Case, call *Call, op *gen.Op) *obs {
 		sn.msg = resp.Message()
 		sn.echo = resp.GetHeader("X-Echo")
 		sn.multi = resp.GetHeaders("X-Multi")
+		sn.echos = append([]string(nil), resp.GetHeaders("X-Echo")...)
+		if call.RespLinesName != "" {
+			sn.lines = append([]string(nil), resp.GetHeaders(call.RespLinesName)...)
+			sn.line1 = resp.GetHeader(call.RespLinesName)
+		}
 		sn.ct = resp.GetHeader("Content-Type")
 		sn.cts = append([]string(nil), resp.GetHeaders("Content-Type")...)
 		decode := !(call.RespKind == "error" || bodyless(sn.code) || op.Method == "HEAD")
@@ -772,6 +827,26 @@ func runCase(m *mon.M, c *Case) {
 		if call.FreshRuntime {
 			m.Class("shape:fresh-runtime")
 		}
+		if from := formFieldLikeQueryKey(c, call, op); from != "" {
+			for _, f := range strings.Split(from, ",") {
+				m.Class("shape:form-field-named-like-a-query-key:" + f)
+			}
+			for _, p := range op.Params {
+				if _, stray := strayQueryKeys(c, call)[p.Name]; stray && p.In == "formData" && p.Type != "file" {
+					if _, set := call.Form[p.Name]; set {
+						m.Class("shape:form-field-named-like-a-query-key:set-by-the-caller")
+					} else {
+						m.Class("shape:form-field-named-like-a-query-key:left-out")
+					}
+				}
+			}
+		}
+		if len(call.AuthQuery) > 0 {
+			m.Class("shape:auth-writer-adds-query")
+		}
+		if _, in := keyScheme(&c.Desc); c.Auth && in == "query" {
+			m.Class("shape:api-key-in-query")
+		}
 		if endsUnusually(call) {
 			m.Class("shape:value-ends-in-space-or-line-break")
 		}
@@ -845,7 +920,7 @@ func judge(m *mon.M, c *Case, call *Call, op *gen.Op, o *obs, feat string, one *
 	descr := func() string {
 		cb, _ := json.Marshal(call)
 		ob, _ := json.Marshal(op)
-		return fmt.Sprintf("op=%s call=%s baseQuery=%v -> submitErr=%v handlerRan=%d ranOp=%s bound=%.600v files=%v reader{ran=%d code=%d msg=%q echo=%q multi=%v ct=%q live=%v bodyLen=%d body=%.80q readErr=%v consumeErr=%v value=%.80q} answerLen=%d", ob, cb, c.BaseQuery, subErr, got.ran, got.op, got.bound, got.files, sn.ran, sn.code, sn.msg, sn.echo, sn.multi, sn.cts, sn.live, len(sn.body), sn.body, sn.readErr, sn.consErr, fmt.Sprint(sn.value), len(respBody(call, op)))
+		return fmt.Sprintf("op=%s call=%s baseQuery=%v -> submitErr=%v handlerRan=%d ranOp=%s bound=%.600v files=%v reader{ran=%d code=%d msg=%q echo=%q echoes=%q multi=%v lines=%q line1=%q ct=%q live=%v bodyLen=%d body=%.80q readErr=%v consumeErr=%v value=%.80q} answerLen=%d", ob, cb, c.BaseQuery, subErr, got.ran, got.op, got.bound, got.files, sn.ran, sn.code, sn.msg, sn.echo, sn.echos, sn.multi, sn.lines, sn.line1, sn.cts, sn.live, len(sn.body), sn.body, sn.readErr, sn.consErr, fmt.Sprint(sn.value), len(respBody(call, op)))
 	}
 	if o.pv != nil {
 		m.Violate("panic/"+feat, fmt.Sprintf("%v\n%s\n%s", o.pv, o.stack, descr()), one)
@@ -929,6 +1004,14 @@ func judge(m *mon.M, c *Case, call *Call, op *gen.Op, o *obs, feat string, one *
 		}
 	case sn.echo != string(call.RespHeader) || strings.Join(sn.multi, ",") != "one,two":
 		m.Violate("response-header-differs/"+feat, descr(), one)
+	case !sameItems(sn.echos, []mon.Q{call.RespHeader}):
+		// the plural accessor hands back the one line the handler set, whatever bytes the value holds (a comma is part of it)
+		m.Violate("response-header-differs-through-the-plural-accessor/"+feat, fmt.Sprintf("GetHeaders(X-Echo)=%q ; ", sn.echos)+descr(), one)
+	case call.RespLinesName != "" && !sameItems(sn.lines, call.RespLines):
+		// a header the handler set line by line arrives as those lines: as many, in that order, each one whole
+		m.Violate("response-header-lines-differ/"+feat, fmt.Sprintf("GetHeaders(%s)=%q ; ", call.RespLinesName, sn.lines)+descr(), one)
+	case call.RespLinesName != "" && !singularAccessorOK(sn.line1, call.RespLines):
+		m.Violate("response-header-first-line-differs/"+feat, fmt.Sprintf("GetHeader(%s)=%q ; ", call.RespLinesName, sn.line1)+descr(), one)
 	case call.RespCT != "" && code != http.StatusNotModified && (sn.ct != string(call.RespCT) || len(sn.cts) != 1 || sn.cts[0] != string(call.RespCT)):
 		m.Violate("response-content-type-differs/"+feat, descr(), one)
 	case sn.readErr != nil:
@@ -946,6 +1029,66 @@ func judge(m *mon.M, c *Case, call *Call, op *gen.Op, o *obs, feat string, one *
 	default:
 		m.Class("agreed")
 	}
+}
+
+// singularAccessorOK: what the accessor for ONE value may hand back for a header the handler set in these lines: the first line,
+// or all of them combined into one field value (RFC 7230 section 3.2.2: "," or ", " between them); for a single line, that line.
+func singularAccessorOK(g string, lines []mon.Q) bool {
+	if len(lines) == 0 {
+		return g == ""
+	}
+	l := mon.SQ(lines)
+	return g == l[0] || g == strings.Join(l, ",") || g == strings.Join(l, ", ")
+}
+
+// commaInHeader: a header value the handler sets holds a comma.
+func commaInHeader(call *Call) bool {
+	if strings.Contains(string(call.RespHeader), ",") {
+		return true
+	}
+	for _, l := range call.RespLines {
+		if strings.Contains(string(l), ",") {
+			return true
+		}
+	}
+	return false
+}
+
+// strayQueryKeys gives the keys the request's query string carries that the caller did not set as a query parameter of the
+// operation, with where each comes from: the transport's base path, the operation's path pattern, the client auth writer
+// (an api key carried in the query, a parameter the writer adds).
+func strayQueryKeys(c *Case, call *Call) map[string]string {
+	out := map[string]string{}
+	for k := range c.BaseQuery {
+		out[k] = "base-path"
+	}
+	for k := range call.PinQuery {
+		out[k] = "path-pattern"
+	}
+	for k := range call.AuthQuery {
+		out[k] = "auth-writer"
+	}
+	if name, in := keyScheme(&c.Desc); c.Auth && in == "query" {
+		out[name] = "api-key"
+	}
+	return out
+}
+
+// formFieldLikeQueryKey names where a key of the query string comes from that is spelled like a (non-file) form field of the
+// operation ("" = no form field of the operation is spelled like a key of the query string). The oracle does not change with it:
+// a form field is what the caller set in the form, or nothing when the caller left it out.
+func formFieldLikeQueryKey(c *Case, call *Call, op *gen.Op) string {
+	keys := strayQueryKeys(c, call)
+	var src []string
+	for _, p := range op.Params {
+		if p.In == "formData" && p.Type != "file" {
+			if from, ok := keys[p.Name]; ok {
+				src = append(src, from)
+			}
+		}
+	}
+	sort.Strings(src)
+	return strings.Join(src, ",")
 }
 
 func isZeroValue(v interface{}) bool {
@@ -1385,6 +1528,16 @@ func (c *Case) feature(call *Call) string {
 	if f := spellingFeature("consumes", op.Consumes); f != "" {
 		fs = append(fs, f)
 	}
+	// round 5
+	if formFieldLikeQueryKey(c, call, op) != "" {
+		fs = append(fs, "form-field-named-like-a-query-key")
+	}
+	if len(call.AuthQuery) > 0 {
+		fs = append(fs, "auth-writer-adds-query")
+	}
+	if _, in := keyScheme(&c.Desc); c.Auth && in == "query" {
+		fs = append(fs, "api-key-in-query")
+	}
 	return strings.Join(fs, "+")
 }
 
@@ -1745,7 +1898,50 @@ func genDesc(r *rand.Rand) (gen.Desc, bool) {
 		}
 		d.Ops = append(d.Ops, op)
 	}
+	if auth && r.Intn(3) == 0 {
+		// round 5: the api key travels in the query string, in 3 descriptions in 4 under a name that some operation gives a form field
+		name := "api_key"
+		if cand := formOnlyNames(&d); len(cand) > 0 && r.Intn(4) != 0 {
+			name = cand[r.Intn(len(cand))]
+		}
+		d.SecDefs = map[string]gen.SecDef{"key": {Type: "apiKey", Name: name, In: "query"}}
+	}
 	return d, auth
+}
+
+// formOnlyNames lists the names of the (non-file) form fields of the description's operations that no operation declares as a
+// query parameter, in the order of the description.
+func formOnlyNames(d *gen.Desc) []string {
+	query := map[string]bool{}
+	for _, op := range d.Ops {
+		for _, p := range op.Params {
+			if p.In == "query" {
+				query[p.Name] = true
+			}
+		}
+	}
+	var out []string
+	seen := map[string]bool{}
+	for _, op := range d.Ops {
+		for _, p := range op.Params {
+			if p.In == "formData" && p.Type != "file" && !query[p.Name] && !seen[p.Name] {
+				seen[p.Name] = true
+				out = append(out, p.Name)
+			}
+		}
+	}
+	return out
+}
+
+// formOnlyNamesOf: those of the names that are form fields of this operation.
+func formOnlyNamesOf(d *gen.Desc, op *gen.Op) []string {
+	var out []string
+	for _, n := range formOnlyNames(d) {
+		if p := paramOf(op, "formData", n); p != nil && p.Type != "file" {
+			out = append(out, n)
+		}
+	}
+	return out
 }
 
 func genCall(r *rand.Rand, d *gen.Desc, oi int) Call {
@@ -1872,6 +2068,22 @@ func genCall(r *rand.Rand, d *gen.Desc, oi int) Call {
 	}
 	c.FreshRuntime = r.Intn(10) == 0
 	c.LiveBody = r.Intn(2) == 0
+	// round 5: the query string carries a key that is no parameter of the operation: the client auth writer adds it (a token, a
+	// signature), or the operation's path pattern has it; on form operations it is mostly spelled like one of the form's fields
+	// (which the caller sets or leaves out as before)
+	if names := formOnlyNamesOf(d, op); len(names) > 0 {
+		if r.Intn(8) == 0 {
+			c.AuthQuery = map[string]mon.Q{names[r.Intn(len(names))]: mon.Q(tail(r, hostile(r), "a"))}
+		}
+		if r.Intn(10) == 0 {
+			if c.PinQuery == nil {
+				c.PinQuery = map[string][]mon.Q{}
+			}
+			c.PinQuery[names[r.Intn(len(names))]] = []mon.Q{mon.Q(tail(r, hostile(r), "p"))}
+		}
+	} else if r.Intn(30) == 0 {
+		c.AuthQuery = map[string]mon.Q{"sig": mon.Q(tail(r, hostile(r), "a"))}
+	}
 	if r.Intn(40) == 0 {
 		genPreSend(r, op, &c)
 	}
@@ -2061,6 +2273,9 @@ func genAnswer(r *rand.Rand, op *gen.Op, c *Call) {
 	if r.Intn(8) == 0 {
 		c.RespLen = answerSize(r)
 	}
+	if r.Intn(6) == 0 {
+		genHeaderLines(r, c)
+	}
 	if r.Intn(8) == 0 {
 		c.RespFlush = true
 		if c.RespLen == 0 && r.Intn(2) == 0 {
@@ -2091,6 +2306,34 @@ func genAnswer(r *rand.Rand, op *gen.Op, c *Call) {
 	}
 }
 
+// header values in which a comma is part of the value: HTTP dates, free text, quoted strings, a list carried in one line
+var commaValues = []string{"Wed, 21 Oct 2015 07:28:00 GMT", "Sun, 06 Nov 1994 08:49:37 GMT", "3 warnings, 0 errors", "199 - \"miscellaneous, with a comma\"",
+	"</r0?page=2>; rel=\"next\", </r0?page=9>; rel=\"last\"", "a,b", "a, b ,c", "x,", ",x", ",", "Basic realm=\"a, b\", charset=\"UTF-8\""}
+
+var (
+	dateHeaders = []string{"Last-Modified", "Expires", "Retry-After"}
+	listHeaders = []string{"X-Lines", "Warning", "Link", "X-Summary", "x-lower-lines"}
+)
+
+// genHeaderLines scripts a response header the handler sets line by line: a date header with its one date, or a header of 1..3
+// lines whose values are free text; 1 value in 2 holds a comma.
+func genHeaderLines(r *rand.Rand, c *Call) {
+	if r.Intn(4) == 0 {
+		c.RespLinesName = dateHeaders[r.Intn(len(dateHeaders))]
+		c.RespLines = []mon.Q{mon.Q(commaValues[r.Intn(2)])}
+		return
+	}
+	c.RespLinesName = listHeaders[r.Intn(len(listHeaders))]
+	n := 1 + r.Intn(3)
+	for i := 0; i < n; i++ {
+		if r.Intn(2) == 0 {
+			c.RespLines = append(c.RespLines, mon.Q(commaValues[r.Intn(len(commaValues))]))
+		} else {
+			c.RespLines = append(c.RespLines, mon.Q(headerValue(r)))
+		}
+	}
+}
+
 func run(m *mon.M) {
 	r := m.Rand("c04")
 	nd := m.N(400, 4000)
@@ -2111,6 +2354,13 @@ func run(m *mon.M) {
 			if len(names) > 0 {
 				c.BaseQuery = map[string]mon.Q{names[r.Intn(len(names))]: mon.Q([]string{"17", "0", "-3"}[r.Intn(3)])}
 			}
+		}
+		if names := formOnlyNames(&d); len(names) > 0 && r.Intn(12) == 0 {
+			// round 5: the base path carries a static query parameter that no operation declares as one, spelled like a form field
+			if c.BaseQuery == nil {
+				c.BaseQuery = map[string]mon.Q{}
+			}
+			c.BaseQuery[names[r.Intn(len(names))]] = mon.Q([]string{"17", "v2", "a b"}[r.Intn(3)])
 		}
 		for k := 0; k < per; k++ {
 			call := genCall(r, &d, r.Intn(len(d.Ops)))
